@@ -49,6 +49,12 @@ namespace
             if (c + 1 < g->cycles) sched.schedule(MIN_TD);
         }
     };
+    struct CmpWriter   // ticks LT once, in cycle 0 (the if_cmp program keeps its comparison constant)
+    {
+        static constexpr auto name = "c13_cmp_writer";
+        static constexpr bool schedule_on_start = true;
+        static void eval(Out<TS<stdlib::CmpResult>> out) { out.set(stdlib::CmpResult::LT); }
+    };
     template <typename Sh>
     struct TargetWriter
     {
@@ -211,6 +217,8 @@ namespace
                 auto c = wire<SelWriter>(w);
                 ref = wire<stdlib::if_then_else>(w, c, pa, pb).template as<S>();
                 if (program == 'n') ref = nested_<PassSub<S>>(w, ref);
+                // a reference selected through another reference-producing operator whose own selector never ticks again
+                if (program == 'c') ref = wire<stdlib::if_cmp>(w, wire<CmpWriter>(w), ref, pa, pb).template as<S>();
             }
             wire<Consumer<Sh>>(w, ref, Int{0});
             if (program == '2') wire<Consumer<Sh>>(w, ref, Int{1});
@@ -385,8 +393,8 @@ void verif_enumerate(verif::Ctx &ctx)
     const bool th = ctx.thorough();
     struct Space { std::string programs; char shape; std::vector<std::string> a_ops, b_ops; int cycles; };
     std::vector<Space> spaces = {
-        {"i2ns", 't', {"", "v1", "v2"}, {"", "v5", "v6"}, th ? 5 : 4},
-        {"i2ns", 's', {"", "+1", "-1", "+2"}, {"", "+2", "+3", "-2"}, th ? 4 : 3},
+        {"i2nsc", 't', {"", "v1", "v2"}, {"", "v5", "v6"}, th ? 5 : 4},
+        {"i2nsc", 's', {"", "+1", "-1", "+2"}, {"", "+2", "+3", "-2"}, th ? 4 : 3},
         {"i2ns", 'd', {"", "s1=5", "e1", "s2=6"}, {"", "s2=7", "s3=8", "e2"}, th ? 4 : 3},
         {"i", 's', {"", "+1", "-1"}, {"", "+1", "+2"}, th ? 5 : 4},
         {"i", 'd', {"", "s1=5", "e1"}, {"", "s1=6", "s2=7"}, th ? 5 : 4},
